@@ -1,6 +1,7 @@
 package nomsim
 
 import (
+	"sort"
 	"crypto/sha256"
 	"fmt"
 	"math/big"
@@ -411,6 +412,42 @@ func init() {
 			default: // changes hands: other users become holders (and burn as non-owners)
 				return gn.do(n, "transfer", h.who, gn.user(), h.z, amt, nil)
 			}
+		}},
+		// a rich user without a pillar deposits the QSR the next pillar costs and registers one in one go; one
+		// with a pillar of its own (never the first genesis pillar) revokes it
+		Flow{"pillar-lifecycle", func(gn *Gen, n *simnode.Node) *nom.AccountBlock {
+			t := gn.W.R.T
+			x := gn.richUser()
+			names := make([]string, 0, len(gn.NameOwner))
+			for name, owner := range gn.NameOwner {
+				if owner == x && name != g.Pillar1Name {
+					names = append(names, name)
+				}
+			}
+			sort.Strings(names)
+			st := n.Chain.GetFrontierMomentumStore().GetAccountStore(types.PillarContract).Storage()
+			for _, name := range names {
+				if pi, err := definition.GetPillarInfo(st, name); err == nil && pi != nil && pi.RevokeTime == 0 {
+					return gn.do(n, "pillar.Revoke", x, types.PillarContract, types.ZnnTokenStandard, big.NewInt(0), definition.ABIPillars.PackMethodPanic(definition.RevokeMethodName, name))
+				}
+			}
+			// generous deposit: base cost plus the increase for every pillar there is
+			cnt := int64(len(gn.PillarNames) + 2)
+			dep := new(big.Int).Add(constants.PillarQsrStakeBaseAmount, new(big.Int).Mul(constants.PillarQsrStakeIncreaseAmount, big.NewInt(cnt)))
+			if bal := gn.balance(n, x, types.QsrTokenStandard); bal.Cmp(dep) < 0 {
+				return nil
+			}
+			gn.do(n, "common.DepositQsr", x, types.PillarContract, types.QsrTokenStandard, dep, definition.ABICommon.PackMethodPanic(definition.DepositQsrMethodName))
+			gn.seq++
+			name := fmt.Sprintf("sim-pillar-%d", gn.seq)
+			b := gn.do(n, "pillar.Register", x, types.PillarContract, types.ZnnTokenStandard, new(big.Int).Set(constants.PillarStakeAmount),
+				definition.ABIPillars.PackMethodPanic(definition.RegisterMethodName, name, x, gn.user(), pct(t), pct(t)))
+			if b != nil {
+				gn.PillarNames = append(gn.PillarNames, name)
+				gn.NameOwner[name] = x
+				gn.W.R.Probe("pillar-lifecycle-register-sent")
+			}
+			return b
 		}},
 		// a rich user without a sentinel deposits and registers in one go; one with a sentinel revokes it
 		Flow{"sentinel-lifecycle", func(gn *Gen, n *simnode.Node) *nom.AccountBlock {
